@@ -11,7 +11,7 @@
    quota/d times for one common positive divisor d (the statement does not fix d).  The order
    of the list is not part of the statement: lists are compared as multisets. *)
 Require Import Verif.Common.Base Verif.Model.C15.
-From Coq Require Import Permutation Orders Mergesort.
+From Coq Require Import Permutation Orders Mergesort Sorted.
 Local Open Scope Z_scope.
 
 (* ---- the lowest priority group, without any sorting ---- *)
@@ -167,3 +167,14 @@ Fixpoint n_reads (evs : list event) : nat :=
   | _ :: r => n_reads r
   end.
 Definition is_scribble (e : event) : bool := match e with EScribble _ _ => true | _ => false end.
+
+(* ---- what sort.Slice guarantees, whatever algorithm it uses ---- *)
+(* the result is a rearrangement of the input in which no later element is less (by the
+   comparator handed to sort.Slice) than an earlier one *)
+Definition sort_post (input sorted : list srv) : Prop :=
+  Permutation sorted input /\ StronglySorted (fun a b => srv_ltb b a = false) sorted.
+
+(* rand.Perm(n) returns a permutation of 0..n-1 *)
+Definition is_perm_of (n : nat) (perm : list nat) : Prop := Permutation perm (seq 0 n).
+Definition is_perm_b (n : nat) (perm : list nat) : bool :=
+  Nat.eqb (List.length perm) n && forallb (fun i => existsb (Nat.eqb i) perm) (seq 0 n).
